@@ -154,6 +154,7 @@ class Ctx:
                 hit["count"] += 1
                 return False
         self.violations += 1
+        self.count("violation-kind:" + kind)
         if len(self.violation_records) < MAX_REPLAYS:
             blob = json.dumps(rec, sort_keys=True, default=repr)
             digest = hashlib.sha1(blob.encode()).hexdigest()[:12]
